@@ -2,8 +2,9 @@
 
 (M) TLC exhausts specs/routing/Routing.tla: every configuration of 1..3 (thorough: 1..4) nodes
     (entry node x sorted multiset of peers; node type = {standalone without router, standalone
-    in a cluster, writer primary/standby/none, reader, compactor} x {healthy, unhealthy}) x
-    endpoint x client-supplied X-Arc-Forwarded-By, with decideForward / RouteWrite / RouteQuery
+    in a cluster, writer primary/standby/none, reader, compactor} x {healthy+reachable, registry-
+    healthy but down, unhealthy}) x
+    endpoint x client-supplied X-Arc-Forwarded-By, with decideForward / RouteWrite / RouteQuery / the forwardRequest retry loop
     as written; invariants: at most one forward, processed only by a capable node, a capable
     node serves where received, forward targets are capable, a spoofed marker never causes
     local processing.  MC_noprologue.cfg (handlers without a routing prologue: estimate before
@@ -21,7 +22,7 @@ from vlib import InfraError
 
 LEVEL = "model_checking"
 
-ACTIONS = ("Decide", "RouteWrite", "RouteQuery")
+ACTIONS = ("Decide", "RouteWrite", "RouteQuery", "Attempt")
 
 
 def _tags():
@@ -50,6 +51,13 @@ def run(ctx):
     ctx.note("tlc_negative_control", {"cfg": "MC_noprologue.cfg", "violated": np_.violated,
                                       "meaning": "handlers without routing prologue; expected to be rejected"})
 
+    # negative control 2: a retry loop that moves to "another healthy non-compactor peer" whatever the
+    # request kind (a write then reaches a reader) must be rejected.
+    rs = ctx.tlc("routing", "Routing", "MC_retryswitch.cfg", allow_violation=True, timeout=600, workers=2)
+    if not rs.violated:
+        raise InfraError("negative control MC_retryswitch.cfg was not rejected by TLC")
+    ctx.note("tlc_negative_control_retry", {"cfg": "MC_retryswitch.cfg", "violated": rs.violated})
+
     gen = ctx.tlc("routing", "Routing", "Gen_%s.cfg" % size, timeout=1800, workers=4)
     if not gen.traces:
         raise InfraError("generator emitted nothing")
@@ -67,7 +75,7 @@ def run(ctx):
 
     binp = ctx.go_build("routing", tags=_tags())
     rp = ctx.path("result.json")
-    repeat = 1 if ctx.quick() else 2
+    repeat = 1
     ctx.run([binp, "-scenarios", sp, "-out", rp, "-repeat", str(repeat)], timeout=3000)
     r = json.load(open(rp))
     if r.get("infra"):
@@ -96,13 +104,14 @@ def run(ctx):
     ctx.note("distinct_config_target_pairs", r["distinct_forward_targets_seen"])
     ctx.note("exhaustive", True)
     ctx.note("rule", "every (entry node type x sorted multiset of <=%d peer types) x endpoint x client marker "
-             "{none, junk, own id, peer id}; node type = 7 kinds x 2 health; each replayed %d time(s)"
+             "{none, junk, own id, peer id}; peer type = 7 kinds x {healthy+reachable, healthy+down, unhealthy}, entry = 7 kinds; "
+             "router retries = 2; each replayed %d time(s)"
              % (2 if ctx.quick() else 3, repeat))
     for s in (r.get("samples") or []):
         ctx.sample(s)
     ctx.assume("a router exists exactly when clustering is on; without clustering the role is standalone "
                "(reader/compactor without router is not a configuration arc can start in)")
-    ctx.assume("all registries agree on roles, writer states and health (one global view)")
+    ctx.assume("all registries agree on roles, writer states and health (one global view); a down node refuses connections")
     ctx.assume("capability table of the statement: standalone and writer ingest+query, reader query only, compactor neither")
     ctx.assume("a 2xx answer of an endpoint whose body does not name the executor was produced by the last node of the observed chain")
     for d in (r.get("drift") or []):
